@@ -21,7 +21,7 @@ def run(c):
     c.tlc_expect_clean("MCStream", "MCStream")
     neg = c.tlc_expect_violation("MCStream", "MCStreamNeg")
     c.extra["negative_config_rejected"] = neg.violated
-    k = 4 if c.thorough else 1
+    k = 16 if c.thorough else 1
     gens = [dict(kind="pipelines", n=2500 * k, seed=rng.getrandbits(40), depth=3, len=7, calls=12),
             dict(kind="pipelines", n=500 * k, seed=rng.getrandbits(40), depth=6, len=10, calls=16),
             dict(kind="unbounded", n=1500 * k, seed=rng.getrandbits(40), depth=3, len=0, calls=10),
